@@ -33,14 +33,19 @@ func init() {
 	// keep the repository's logging code running (ui.Fatal must still panic)
 	// but do not print
 	if os.Getenv("VERIF_LOG") == "" {
-		pterm.SetDefaultOutput(io.Discard)
-		pterm.Info.Writer = io.Discard
-		pterm.Warning.Writer = io.Discard
-		pterm.Error.Writer = io.Discard
-		pterm.Debug.Writer = io.Discard
-		pterm.Success.Writer = io.Discard
-		pterm.Fatal.Writer = io.Discard
+		SetLogWriter(io.Discard)
 	}
+}
+
+// SetLogWriter redirects everything fan2go prints through pterm.
+func SetLogWriter(w io.Writer) {
+	pterm.SetDefaultOutput(w)
+	pterm.Info.Writer = w
+	pterm.Warning.Writer = w
+	pterm.Error.Writer = w
+	pterm.Debug.Writer = w
+	pterm.Success.Writer = w
+	pterm.Fatal.Writer = w
 }
 
 // PlatformOf is the platform string fan2go computes for a chip of the world.
